@@ -263,6 +263,10 @@ func CheckPassParam(ctx *Task, expr *ast.CallExpr, params []*Param) *errchain.Pl
 					"positional parameters should come before named parameters", p.StartPos(),
 				)
 			}
+			if ePIndex >= len(params) && !varbParam {
+				return NewRunError(ctx, fmt.Sprintf(
+					"too many arguments: expected at most %d", len(params)), p.StartPos())
+			}
 			newArgs[ePIndex] = p
 		}
 	}
